@@ -25,6 +25,46 @@ SS = 'base::space::StateSpace'
 EPS = 1e-15
 
 
+def _component(ctx):
+    """C10.component: where R^n interpolation is written with explicit indices, the element stored at index K is computed from
+    elements read at the same index K (of `from` and `to`): a lane that reads its neighbour's displacement moves one coordinate
+    with another one's motion.  Forms without index terms (zip / iterator chains) have nothing to compare and are left to the
+    normal forms (C10.ends / C10.affine)."""
+    from .c12 import same
+    from ..engine import walk, fmt_terms
+    r = RuleResult('C10.component', 'R^n interpolation computes component k from the components k of its two arguments (index agreement)')
+    n = 0
+    for b in sorted(ctx.lib_bodies(), key=lambda x: x.path):
+        if b.impl_trait != SS or b.name != 'interpolate' or 'real_vector' not in (b.j.get('impl_adt') or ''):
+            continue
+        fn = ctx.fn(b)
+        n += 1
+        # references obtained from IndexMut::index_mut(.., K)
+        slots = {}
+        for bi, t in b.calls():
+            if (t['func'].get('path') or '').endswith('IndexMut::index_mut') and len(t['args']) == 2 and not t['dest']['p']:
+                slots[t['dest']['l']] = fn.arg_terms(t, 1, bi)
+        probs = []
+        stores = 0
+        for bi, blk in enumerate(b.blocks):
+            if blk['cleanup']:
+                continue
+            for si, st in enumerate(blk['stmts']):
+                if st['k'] != 'assign' or st['place']['p'] != ['deref'] or st['place']['l'] not in slots:
+                    continue
+                k = slots[st['place']['l']]
+                stores += 1
+                for m in walk(fn.rvalue_terms(st['rv'], (bi, si))):
+                    if m[0] == 'index' and len(m) > 2 and m[2] and k and not same(m[2], k):
+                        probs.append('the element stored at index %s is computed from an element read at index %s' % (fmt_terms(k)[:40], fmt_terms(m[2])[:40]))
+        r.inst('%s: %d indexed stores, each computed from elements of the same index' % (b.path, stores), ok=not probs, nontrivial=bool(stores), site=b.loc(0))
+        for o, pr in enumerate(dict.fromkeys(probs)):
+            r.violations.append(Violation('C10', 'C10.component', b.path, 'index', pr + ': one coordinate moves with the displacement of another', loc=b.loc(0), ordinal=o))
+    if n < 1:
+        r.violations.append(Violation('C10', 'C10.component', 'oxmpl', 'floor', 'no R^n interpolate found (floor 1)'))
+    return r
+
+
 def _domain(ctx):
     """C10.domain: every acos / asin evaluated by a state space is reached only with an argument known to be at most 1 - the
     dot product of two unit quaternions rounds above 1 for about one unit quaternion in five when both arguments are the same
@@ -159,7 +199,7 @@ def run(ctx, tier):
             r2.violations.append(Violation('C10', 'C10.arc', b.path, 'difference', pr, loc=b.loc(0), ordinal=o))
     if m < 1:
         r2.violations.append(Violation('C10', 'C10.arc', 'oxmpl', 'floor', 'no SO(2) interpolation found (floor 1)'))
-    return [r, r2, _repr(ctx), _domain(ctx)] + _algebra_safe(ctx)
+    return [r, r2, _repr(ctx), _domain(ctx), _component(ctx)] + _algebra_safe(ctx)
 
 
 def _repr(ctx):
